@@ -130,4 +130,71 @@ def sleepsOf : List Ev → List Rat
 def Run.calls (r : Run) : Nat := nCalls r.trace
 def Run.sleeps (r : Run) : List Rat := sleepsOf r.trace
 
+/-! ### `EsMetricsStore`: documents are buffered by `put_*` and sent by `flush()` / `close()`
+
+State carried between calls on one store object: `_docs` (the buffer).  `flush(refresh)`:
+`if self._docs: self._client.bulk_index(...)` (one guarded bulk call), then `self._docs = []`, then
+`if refresh: self._client.refresh(...)` (one guarded call).  `close()` is `flush()`.
+Documents are identified by serial numbers; `acked` lists what the cluster acknowledged, in order, with
+repetitions if something is sent twice.  Every guarded call draws from the one global `random.random()`
+sequence: `draws` is how many draws were made so far. -/
+
+structure Store where
+  buffer : List Nat
+  acked : List Nat
+  next : Nat
+  draws : Nat
+deriving Repr, DecidableEq
+
+inductive StoreStep
+  | put (n : Nat)                                           -- n documents added
+  | flush (refresh : Bool) (bulk refr : List Outcome)       -- scripted faults of the bulk / the refresh call
+deriving Repr
+
+/-- a guarded client call whose scripted faults are followed by success (outcome tag = script length) -/
+def callThenSucceed (rnd : Nat → Rat) (offset : Nat) (outs : List Outcome) : Run :=
+  guarded (fun k => rnd (offset + k)) (outs ++ [.success outs.length])
+
+structure StepResult where
+  err : Option Res       -- what `flush` raised, if anything
+  runs : List Run        -- the guarded calls that were made (bulk, refresh)
+deriving Repr, DecidableEq
+
+def isReturned : Res → Bool
+  | .returned _ => true
+  | _ => false
+
+def flushStep (rnd : Nat → Rat) (s : Store) (refresh : Bool) (bulk refr : List Outcome) : Store × StepResult :=
+  if s.buffer.isEmpty then
+    -- nothing to send; `self._docs = []`; refresh
+    if refresh then
+      let r := callThenSucceed rnd s.draws refr
+      ({ s with draws := s.draws + r.calls }, ⟨if isReturned r.res then none else some r.res, [r]⟩)
+    else (s, ⟨none, []⟩)
+  else
+    let b := callThenSucceed rnd s.draws bulk
+    if isReturned b.res then
+      -- the bulk was acknowledged; the buffer is dropped *before* the refresh
+      let s1 : Store := { s with acked := s.acked ++ s.buffer, buffer := [], draws := s.draws + b.calls }
+      if refresh then
+        let r := callThenSucceed rnd s1.draws refr
+        ({ s1 with draws := s1.draws + r.calls }, ⟨if isReturned r.res then none else some r.res, [b, r]⟩)
+      else (s1, ⟨none, [b]⟩)
+    else
+      -- bulk_index raised: flush is left, the buffer is kept
+      ({ s with draws := s.draws + b.calls }, ⟨some b.res, [b]⟩)
+
+def storeStep (rnd : Nat → Rat) (s : Store) : StoreStep → Store × StepResult
+  | .put n => ({ s with buffer := s.buffer ++ (List.range n).map (s.next + ·), next := s.next + n }, ⟨none, []⟩)
+  | .flush refresh bulk refr => flushStep rnd s refresh bulk refr
+
+def runStore (rnd : Nat → Rat) : Store → List StoreStep → Store × List StepResult
+  | s, [] => (s, [])
+  | s, st :: rest =>
+    let (s1, r) := storeStep rnd s st
+    let (s2, rs) := runStore rnd s1 rest
+    (s2, r :: rs)
+
+def emptyStore : Store := ⟨[], [], 0, 0⟩
+
 end Guarded
